@@ -324,6 +324,7 @@ impl World for C04 {
     fn execute(&self, case: &Json) -> Outcome {
         let mut o = Outcome::default();
         o.digest = fnv(case.to_string().as_bytes());
+        verif_hooks::census_enable(true);
         kit::ctx_reset();
         let stmts: Vec<String> = case["stmts"].as_array().map(|a| a.iter().filter_map(|x| x.as_str().map(|s| s.to_owned())).collect()).unwrap_or_default();
         let k = (case["freeze_at"].as_u64().unwrap_or(stmts.len() as u64) as usize).min(stmts.len());
@@ -569,6 +570,10 @@ impl World for C04 {
                 }
             }
         }
+        for (what, ty, n) in verif_hooks::census_take() {
+            o.bump(&format!("census.{what}.{ty}"), n);
+        }
+        verif_hooks::census_enable(false);
         o.log_hash = kit::hash_lines(&log);
         o
     }
